@@ -1,2 +1,75 @@
-(* C03 placeholder *)
-From MPB Require Import Base.
+(* C03 — The last frame shows every bar in its final state.
+   Statements over Container.step (the acceptor the hook traces are replayed on);
+   proofs in ContainerFlush.v, ContainerLife.v, ContainerProofs.v.
+   What is proved: the rows of a frame carry the snapshot taken by the render closure;
+   a bar is cancelled by flush only after a frame that already showed it terminal;
+   every bar of the heap is in the frame exactly once; removed bars leave for good; and
+   nothing is written after Wait returned.  That the LAST frame is written after every
+   bar became terminal is a liveness statement about the run-time (the final render
+   loop); it is checked on every trace by the c03 monitor, not proved here.
+   Known finding (D9, open): a bar whose actor exited through cancellation before its
+   last operation was rendered is drawn by the container goroutine from the state it
+   published at exit; see known_findings.json. *)
+From Coq Require Import Permutation.
+From MPB Require Import Base BaseProofs BarState BarStateProofs Container ContainerProofs ContainerLife ContainerFlush.
+
+Theorem C03_no_output_after_wait : forall s s1 evs s2,
+  step s CT_EXIT = Some s1 -> run s1 evs = Some s2 -> outframes s2 = outframes s.
+Proof. exact no_output_after_exit. Qed.
+Print Assumptions C03_no_output_after_wait.
+
+Theorem C03_row_is_render_snapshot : forall r cur tot ref ab comp sh r',
+  bar_render r cur tot ref ab comp sh = Some r' ->
+  exists fi, br_frame r' = Some fi /\
+    fi_cur fi = current (br_st r) /\ fi_total fi = total (br_st r) /\
+    fi_completed fi = completed (br_st r) /\ fi_aborted fi = aborted (br_st r) /\
+    (terminal (br_st r) = true -> fi_shutdown fi = shutdown (br_st r) /\ shutdown (br_st r') = shutdown (br_st r) + 1) /\
+    (terminal (br_st r) = false -> br_st r' = br_st r).
+Proof. exact render_snapshots. Qed.
+Print Assumptions C03_row_is_render_snapshot.
+
+Theorem C03_frame_rows_come_from_the_snapshot : forall s b sh nrows rmf np s',
+  step s (CT_FLUSHBAR b sh nrows rmf np false) = Some s' -> cycle_err s = false ->
+  exists r fi wd ht rows n pc pushes taken pc' pushes',
+    ph s = Rendering wd ht rows n pc pushes /\ lookup b (bars s) = Some r /\ br_frame r = Some fi /\
+    ph s' = Rendering wd ht (rows ++ taken) (n + Z.of_nat (length taken)) pc' pushes' /\
+    (forall x, In x taken -> In x (bar_rows b r fi)).
+Proof. exact flush_rows. Qed.
+Print Assumptions C03_frame_rows_come_from_the_snapshot.
+
+Theorem C03_cancelled_only_after_a_terminal_frame : forall s b sh nrows rmf np s' r1 r1',
+  step s (CT_FLUSHBAR b sh nrows rmf np false) = Some s' -> cycle_err s = false ->
+  lookup b (bars s) = Some r1 -> lookup b (bars s') = Some r1' ->
+  BarState.cancelled (br_st r1') = true -> BarState.cancelled (br_st r1) = true \/ sh = 1.
+Proof. exact flush_cancels_after_terminal_frame. Qed.
+Print Assumptions C03_cancelled_only_after_a_terminal_frame.
+
+(* each bar of the heap exactly once in a frame (shared with C05) *)
+Theorem C03_every_bar_once : forall p a d evs s n pc s',
+  run (init_cst p a d) evs = Some s -> step s (CT_FRAME n pc) = Some s' ->
+  forall x, cnt x (cycle_flushed s) = cnt x (iter_heap s).
+Proof. exact frame_bars_are_iter_heap. Qed.
+Print Assumptions C03_every_bar_once.
+
+(* a bar that left (removed on completion, popped out, replaced by its successor) is never drawn again *)
+Theorem C03_removed_bars_absent : forall p a d evs s b sh nrows rmf np err,
+  run (init_cst p a d) evs = Some s -> In b (retired s) -> step s (CT_FLUSHBAR b sh nrows rmf np err) = None.
+Proof. exact retired_never_flushed. Qed.
+Print Assumptions C03_removed_bars_absent.
+
+(* non-vacuity: a bar completes, is shown completed twice, the container is done and exits *)
+Example C03_nonvacuous :
+  exists s, run (init_cst false true false)
+    [CT_OP; CT_ADD 0 0 0 2 None None false false true 0 false; HM_PUSH 0 true 0 false 0;
+     CL_OP 0 (IncrInt64 2); BAR_OP 0 2 2 0 true false false 0;
+     CT_RENDERBEGIN; HM_SYNC 1 true 0; HM_ITERREQ true 1; CT_RENDERSIZE 80 24;
+     BAR_RENDER 0 2 2 0 false true 0; BAR_OP 0 2 2 0 true false false 1; HM_POP 0 0;
+     CT_FLUSHBAR 0 0 1 false false false; CT_FRAME 1 0; OUT [IRow 0 2 2 true false];
+     HM_PUSH 0 false 0 false 1;
+     CT_RENDERBEGIN; HM_SYNC 1 false 1; HM_ITERREQ true 1; CT_RENDERSIZE 80 24;
+     BAR_RENDER 0 2 2 0 false true 1; BAR_OP 0 2 2 0 true false false 2; HM_POP 0 0;
+     CT_FLUSHBAR 0 1 1 false false false; CT_FRAME 1 0; OUT [ICuu 1; IRow 0 2 2 true false];
+     HM_PUSH 0 false 0 false 1; BAR_EXIT 0 2 2 false;
+     CT_DONE; HM_STATE 1 false 1; HM_END 1; CT_EXIT; FINAL 0 2 true false false] = Some s
+  /\ ct_exited s = true /\ length (outframes s) = 2%nat.
+Proof. eexists. vm_compute. repeat split. Qed.
